@@ -638,7 +638,14 @@ func runCase(c *Ctx, ops []*mop, capacity int, kind string, nontrivial *int) boo
 	case <-done:
 	case <-watchdog.C:
 		i := int(atomic.LoadInt32(&at))
-		c.Stats.Fail(fmt.Sprintf("class=blocked: sequential history did not finish within 60s; stuck in operation #%d %s", i, ops[i].Str), desc)
+		// the runner goroutine is parked in a lock: its log can be read
+		var panics []string
+		for j, e := range rn.log {
+			if e.Res.R == rPanic || (e.Res.R == rNil && (e.Kind == opPost || e.Kind == opStop || e.Kind == opSubscribe)) {
+				panics = append(panics, fmt.Sprintf("primitive op #%d panicked (%s %s)", j, e.Res.coq(), e.Res.Msg))
+			}
+		}
+		c.Stats.Fail(fmt.Sprintf("class=blocked: sequential history did not finish within 60s; stuck in operation #%d %s; %s", i, ops[i].Str, strings.Join(panics, "; ")), desc)
 		return false
 	}
 	desc["results"] = summaries
